@@ -173,7 +173,8 @@ def run(ctx):
                int.from_bytes(b'\0\0' + bytes(rng.randrange(256) for _ in range(30)), 'big')] + \
               [rng.randrange(1, 2**256 - 2**129) for _ in range(4)]
     for net in nets:
-        for sec in rng.sample(secrets, 3):
+        # secrets whose last byte is 01 (the compression-flag value) are always included, compressed and uncompressed
+        for sec in rng.sample(secrets, 3) + [1, 0x0101, (rng.randrange(1, 2**248) << 8) | 1]:
             for comp in (True, False):
                 k = Key(sec, network=net, compressed=comp)
                 wifs.append(k.wif())
@@ -239,7 +240,8 @@ def run(ctx):
             return 'none'
         # reconstruct the payload the string must have carried: version || secret || [01]
         pre = k._wif_prefix if getattr(k, '_wif_prefix', None) else None
-        payload = k.private_byte + (b'\x01' if k.compressed else b'')
+        # from the decoded FIELDS (32-byte secret, compression flag), not from the raw bytes the object happens to hold
+        payload = k.secret.to_bytes(32, 'big') + (b'\x01' if k.compressed else b'')
         return 'accept ' + payload.hex()
 
     def py_xkey(s, how):
@@ -327,6 +329,9 @@ def run(ctx):
                         items.append((m, py_xkey(m, 'from_wif')))
         cmp_b58check(items, kind)
 
+    # every generated valid string of the Base58Check classes is decoded at least once (the mutant sweeps below take a subset)
+    cmp_b58check([(w_, py_wif(w_)) for w_ in wifs], 'wif')
+    cmp_b58check([(x_, py_xkey(x_, 'init')) for x_ in xkeys] + [(x_, py_xkey(x_, 'from_wif')) for x_ in xkeys], 'xkey')
     nq = (len(addr58), len(bech), len(wifs), len(xkeys)) if T else (4, 6, 3, 2)
     sweep_addr58(addr58[:nq[0]], True)
     sweep_bech(bech[:nq[1]], True)
